@@ -463,6 +463,46 @@ Proof.
   unfold Q2R. cbn. Lra.lra.
 Qed.
 
+
+(* ---- (9) the acceptance statistic that drives the adaptation (repair D10): the term a leaf contributes is never
+   NaN, is 0 when the energy change is NaN (a leaf outside the target's domain), and never exceeds 1, for every
+   float format and every computed ratio; the pre-repair rule returned 1 for a NaN ratio, which let dual
+   averaging grow the step size to +inf ---- *)
+From MiniMcmc Require Import Base.Fp Model.NUTSEval Proofs.LeafAlpha.
+Local Close Scope R_scope.
+Local Close Scope Q_scope.
+Section C04_leaf_alpha.
+  Variables prec emax : Z.
+  Context (Hprec : FLX.Prec_gt_0 prec) (Hmax : BinarySingleNaN.Prec_lt_emax prec emax).
+  Notation fl := (binary_float prec emax).
+  Variable one : fl.
+  Hypothesis one_not_nan : fnan one = false.
+  Hypothesis one_not_below_zero : flt one (Binary.B754_zero prec emax false) = false.
+
+  Theorem C04_leaf_alpha : forall r : fl,
+    fnan (leaf_alpha one r) = false /\
+    (fnan r = true -> leaf_alpha one r = Binary.B754_zero prec emax false) /\
+    (fnan r = false -> (flt r one = true -> leaf_alpha one r = r) /\ (flt r one = false -> leaf_alpha one r = one)) /\
+    flt one (leaf_alpha one r) = false.
+  Proof.
+    intros r. split; [exact (leaf_alpha_not_nan prec emax one one_not_nan r)|].
+    split; [exact (leaf_alpha_nan prec emax one r)|].
+    split; [exact (leaf_alpha_min prec emax one r) | exact (leaf_alpha_le_one prec emax one one_not_below_zero r)].
+  Qed.
+
+  Theorem C04_leaf_alpha_old_refuted : forall r : fl, fnan r = true -> leaf_alpha_old one r = one.
+  Proof. exact (leaf_alpha_old_nan prec emax one). Qed.
+End C04_leaf_alpha.
+
+(* binary32: the canonical NaN ratio gives 0 now and gave 1.0 before; 0.25 stays, 3.0 is capped at 1.0; and the
+   hypotheses of C04_leaf_alpha hold for 1.0f32 *)
+Example C04_leaf_alpha_concrete :
+  leaf_alphas32 [2143289344; 1048576000; 1077936128]%Z = [0; 1048576000; 1065353216]%Z /\
+  bits_of_b32 (leaf_alpha_old (b32_of_bits 1065353216) (b32_of_bits 2143289344)) = 1065353216%Z /\
+  fnan (b32_of_bits 1065353216) = false /\
+  flt (b32_of_bits 1065353216) (Binary.B754_zero 24 128 false) = false.
+Proof. repeat split; vm_compute; reflexivity. Qed.
+
 Print Assumptions C04_warmup_closed_form.
 Print Assumptions C04_warmup_exp_form.
 Print Assumptions C04_hbar_update.
@@ -502,3 +542,6 @@ Print Assumptions C04_find_eps_x_bracket.
 Print Assumptions C04_lapx_halfline_q2r.
 Print Assumptions C04_find_eps_x_eval_sound.
 Print Assumptions C04_find_eps_x_example.
+Print Assumptions C04_leaf_alpha.
+Print Assumptions C04_leaf_alpha_old_refuted.
+Print Assumptions C04_leaf_alpha_concrete.
